@@ -402,3 +402,18 @@ func onlyGoStarted(f, lit *ssa.Function) bool {
 	}
 	return started && !other
 }
+
+type declItem struct {
+	obj types.Object
+	fd  *ast.FuncDecl
+}
+
+// sortedDecls lists the module's function declarations in a fixed order.
+func (c *Ctx) sortedDecls() []declItem {
+	var out []declItem
+	for obj, fd := range c.funcDecls {
+		out = append(out, declItem{obj, fd})
+	}
+	sort.Slice(out, func(i, j int) bool { return out[i].fd.Pos() < out[j].fd.Pos() })
+	return out
+}
